@@ -195,7 +195,7 @@ CLAIMED = {
              "differential demonstration and repaired), point reads/writes and the transaction wrappers of all four drivers, DeletePrefix of "
              "bolt/leveldb/pebble, and the equality of whole histories across drivers. The block-wise DeletePrefix of badger and pebble and pebble's HasKey/Get are proved against the "
              "interface contract (on success no key with the prefix is left and every other key and value is unchanged; on failure nothing "
-             "outside the prefix changed); that it is one atomic write is not (it is one transaction per block of 9999 keys).",
+             "outside the prefix changed); that it is one atomic write is not (it is one transaction per block of 9999 keys). Known finding: writes inside a pebble Update are applied at once (the driver has no transactions).",
         ref="§5 C10",
         note=TRUST + " Assumed: badger v2 and pebble iterator contracts (spec/kvlib.gvc, written from their documentation), the "
              "direction of the cursor badgerIterator.init creates, copyBytes; nil and empty byte slices identified, no stored key empty.",
